@@ -11,7 +11,9 @@ import (
 	"github.com/bytemare/secp256k1/internal/verif/ref"
 )
 
-func fe(raw [4]uint64) *field.Element { return &field.Element{E: field.MontgomeryDomainFieldElement(raw)} }
+func fe(raw [4]uint64) *field.Element {
+	return &field.Element{E: field.MontgomeryDomainFieldElement(raw)}
+}
 
 func feVal(v *big.Int) *field.Element { return fe(ref.Mont(ref.Mod(v, ref.P), ref.P)) }
 
